@@ -220,4 +220,26 @@ BENIGN = [
                     // This should never occur in normal operation so panic and exit
                     .expect("Trying to access basis which doesn't exist")
                     .set_sampled(&mut rng, self.max_step_size * step_ratio);''', '''                basis[basis_index].set_sampled(&mut rng, self.max_step_size * step_ratio);''')),
+    B('clone-via-default-and-set', ['C04', 'C06', 'C08', 'C09', 'C05'],
+      (CELL, """        Cell2 {
+            length: SharedValue::new(self.length.get_value()),
+            ratio: SharedValue::new(self.ratio.get_value()),
+            angle: SharedValue::new(self.angle.get_value()),
+            family: self.family,
+        }
+    }
+}
+
+impl std::fmt::Display for Cell2 {""", """        let cell = Cell2 {
+            family: self.family,
+            ..Cell2::default()
+        };
+        cell.length.set_value(self.length.get_value());
+        cell.ratio.set_value(self.ratio.get_value());
+        cell.angle.set_value(self.angle.get_value());
+        cell
+    }
+}
+
+impl std::fmt::Display for Cell2 {""")),
 ]
